@@ -388,17 +388,65 @@ def rule_r4(F, rep):
                           % (o_, sorted(map(str, res))))
     # Equal: table over (lhs exhausted, rhs exhausted)
     run = F.fn("<%s>::run" % em.EVAL)
+    from . import prov as _prov
+    P_run = _prov.Prov(F, run.body)
+    li_ = em.state_field_index(F, "CompareArray", "lhs")
+    ri_ = em.state_field_index(F, "CompareArray", "rhs")
+    side_cache = {}
+
+    ii_ = em.state_field_index(F, "CompareArray", "index")
+
+    def side_of(l):
+        if l not in side_cache:
+            sd = _cmp_side(F, run.body, P_run, {"k": "copy", "l": l, "p": []}, li_, ri_)
+            if sd is not None:
+                # only the comparison of the *position* with a length: one operand is the `index` payload itself
+                hit = False
+                for d in P_run.defs.get(l, []):
+                    if d[0] == "assign" and d[3]["rv"]["k"] == "binop":
+                        for y in (d[3]["rv"]["a"], d[3]["rv"]["b"]):
+                            if "'@CompareArray', '.%d'" % ii_ in str(P_run.origins_op(y)) if y.get("k") in ("copy", "move") else False:
+                                hit = True
+                if not hit:
+                    sd = None
+            side_cache[l] = sd
+        return side_cache[l]
     for le in (0, 1):
         for re_ in (0, 1):
             def after(w, bb, idx, s, env, le=le, re_=re_):
                 rv = s["rv"]
+                # `index == X.len() - 1`, wherever its result goes (a tuple that is matched on, a named flag, a condition)
+                if rv["k"] == "binop" and rv["op"] == "Eq" and not s["p"]["p"] and not w.pre and w.body is run.body:
+                    sd = side_of(s["p"]["l"])
+                    if sd == "lhs":
+                        env[w.norm(env, s["p"])] = le
+                    elif sd == "rhs":
+                        env[w.norm(env, s["p"])] = re_
                 if rv["k"] == "agg" and rv["ak"] == "tuple" and len(rv["xs"]) == 2:
                     t = w.body.ty(s["p"]["t"])
                     if t["s"] == "(bool, bool)":
                         d = w.norm(env, s["p"])
                         env[d + ".0"] = le
                         env[d + ".1"] = re_
-            outs = _walk_arm_after(F, rep, "CompareArray", ["Equal"], after)
+            # shape-independent form: the position is the concrete number 2 and each `len()` answers by which payload its receiver
+            # is (3 = this was the last element, 7 = more to come); the code's own comparisons then decide
+            seen_len = set()
+
+            def len_hook(w, bb, t, env, args, le=le, re_=re_, seen_len=seen_len):
+                n = callee_name(t) or ""
+                if n in ("<[T]>::len", "<alloc::vec::Vec>::len") and t["xs"] and not w.pre and w.body is run.body:
+                    fi = _payload_field(P_run, t["xs"][0], "CompareArray")
+                    if fi == li_:
+                        seen_len.add("lhs")
+                        return 3 if le else 7
+                    if fi == ri_:
+                        seen_len.add("rhs")
+                        return 3 if re_ else 7
+                return None
+            outs = _walk_arm_after(F, rep, "CompareArray", ["Equal"], None, extra=len_hook, payload={ii_: 2}, arith=True)
+            if seen_len != {"lhs", "rhs"}:
+                # the lengths are not asked through `len()` on the payloads: fall back to the (bool, bool) tuple form
+                outs = _walk_arm_after(F, rep, "CompareArray", ["Equal"], after)
             res = {(tuple(pushes(o, "cmp_ord_stack")),
                     tuple(x if not isinstance(x, tuple) else x[0] for x in pushes(o, "state_stack"))) for o in outs}
             if le and re_:
@@ -502,9 +550,8 @@ def _deep_origins(P, op):
                     for key in ("a", "b", "x"):
                         y = rv.get(key)
                         if isinstance(y, dict) and y.get("k") in ("copy", "move"):
-                            if not y["p"]:
-                                stack.append(y["l"])
-                            else:
+                            stack.append(y["l"])        # also the base of `tmp.0` (overflow-checked arithmetic)
+                            if y["p"]:
                                 out |= P.origins_op(y, through_arith=True)
                     if rv["k"] in ("ref",):
                         pl = rv["p"]
@@ -515,7 +562,40 @@ def _deep_origins(P, op):
     return out
 
 
-def _walk_arm_after(F, rep, variant, ords, after):
+
+def _payload_field(P, op, variant, depth=0):
+    """index of the State::<variant> payload field an operand is a view of (through borrows, derefs and copies), else None"""
+    if depth > 12 or op.get("k") not in ("copy", "move"):
+        return None
+    pr = op["p"]
+    for i, p in enumerate(pr):
+        if p != "*" and p["k"] == "d" and p.get("v") == variant and i + 1 < len(pr) and pr[i + 1] != "*" and pr[i + 1]["k"] == "f":
+            return pr[i + 1]["i"]
+    for d in P.defs.get(op["l"], []):
+        if d[0] == "call":
+            t = d[3]
+            n = callee_name(t) or ""
+            if t["xs"] and (n.endswith("Deref>::deref") or n.endswith("::view") or n.endswith("Borrow>::borrow") or n.endswith("AsRef>::as_ref")
+                            or n.endswith("Clone>::clone")):
+                r = _payload_field(P, t["xs"][0], variant, depth + 1)
+                if r is not None:
+                    return r
+        elif d[0] == "assign":
+            rv = d[3]["rv"]
+            if rv["k"] in ("use", "cast") and rv["x"].get("k") in ("copy", "move"):
+                r = _payload_field(P, rv["x"], variant, depth + 1)
+                if r is not None:
+                    return r
+            if rv["k"] in ("ref", "rawptr"):
+                y = dict(rv["p"])
+                y["k"] = "copy"
+                r = _payload_field(P, y, variant, depth + 1)
+                if r is not None:
+                    return r
+    return None
+
+
+def _walk_arm_after(F, rep, variant, ords, after, extra=None, payload=None, arith=False):
     run = F.fn("<%s>::run" % em.EVAL)
     body = run.body
 
@@ -526,7 +606,8 @@ def _walk_arm_after(F, rep, variant, ords, after):
     m = em.Marker(F, body, 1, False, extra_term=stop)
     m.stop_on_limit = True
     w = kwalk.Walker(F, body, on_term=m.on_term, on_stmt=m.on_stmt, ordered_marks=True, after_stmt=after,
-                     call_result=em.injector(F, body, ords=ords, state=variant), want_ret=True)
+                     call_result=em.injector(F, body, ords=ords, state=variant, payload=payload, extra=extra), want_ret=True,
+                     arith=arith)
     outs = w.run(0, {})
     rep.states += w.states_explored
     return outs
